@@ -1,3 +1,18 @@
-pub mod c04;
-pub mod c06;
-pub mod c14;
+use crate::driver::{run, Opts};
+macro_rules! props {
+    ($($m:ident : $t:ident : $id:literal),* $(,)?) => {
+        $(pub mod $m;)*
+        pub fn dispatch(id: &str, opts: &Opts) -> Option<i32> {
+            match id {
+                $($id => Some(run(&$m::$t, opts)),)*
+                _ => None,
+            }
+        }
+    };
+}
+props! {
+    c03: C03: "C03",
+    c04: C04: "C04",
+    c06: C06: "C06",
+    c14: C14: "C14",
+}
